@@ -551,6 +551,8 @@ class Client:
         except ssl.SSLError as e:
             raise Error("SSL error: %s" % str(e))
         self.sock = nsock
+        # anything received before the handshake was not protected by TLS
+        self.__read_buffer = b""
         self.__capabilities = {}
         self.__get_capabilities()
         return True
